@@ -501,7 +501,9 @@ impl ValidGrammar {
         let expr = distribute_descriptions(&mut grammar.arena, expr);
 
         let (mut user_specs, fallback_specs) = grammar.get_specializations(shell)?;
-        let builtin_specs = make_builtin_specializations(shell);
+        let mut builtin_specs = make_builtin_specializations(shell);
+        // A plain <PATH>/<DIRECTORY> definition overrides the built-in meaning
+        builtin_specs.retain(|name, _| !nonterminal_definitions.contains_key(name));
 
         let mut unused_nonterminals: UstrMap<HumanSpan> = nonterminal_definitions
             .iter()
